@@ -5,6 +5,7 @@ import FlVerif.Drv.Engine
 import FlVerif.Drv.Term
 import FlVerif.Drv.Rules
 import FlVerif.Drv.Export
+import FlVerif.Drv.Defuzz
 
 /-! Registry of driver command groups: one handler per group, tried in order (`none` = not mine / malformed). -/
 
@@ -18,5 +19,6 @@ def handlers : List (List SExp → Option SExp) :=
   , rules
   , exportCmd
   , reprCmd
+  , defuzz
   ]
 end Drv
